@@ -1,11 +1,4 @@
-import IQE.Props.C30
 import IQE.Props.C30Gen
-open IQE.Props.C30
-#print axioms C30_schema_sound_partial
-#print axioms C30_typed_plan_no_static_error
-#print axioms C30_empty_result_schema
-#print axioms C30_names
-
 open IQE.Props.C30Gen
 #print axioms C30Gen_exec_same
 #print axioms C30Gen_plan_exec_agree
